@@ -555,7 +555,7 @@ fn response_pdu_size(response: &Response) -> io::Result<usize> {
         ReadInputRegisters(data)
         | ReadHoldingRegisters(data)
         | ReadWriteMultipleRegisters(data) => 2 + data.len() * 2,
-        ReportServerId(_, _, ref data) => 3 + data.len(),
+        ReportServerId(_, _, ref data) => 4 + data.len(),
         MaskWriteRegister(_, _, _) => 7,
         Custom(_, ref data) => 1 + data.len(),
     };
